@@ -10,7 +10,7 @@ RULE = ("generated programs x {canonical layout, random free layout (continuatio
 ASSUMPTIONS = ["the normaliser applies exactly the canonicalisations calibrated in fv/cosim_norm.py (negative controls: "
                "100% of single-token mutations detected there)",
                "leaf rule classes that drop an optional component are caught only on generated inputs"]
-TIE_MODULES = ["FparserModel.Norm", "FparserModel.Combi", "FparserModel.Generated.Combi", "FparserModel.Decl", "FparserModel.Generated.DeclTables", "FparserModel.Proofs.DeclGenerated", "FparserModel.IoStmt", "FparserModel.IoStmtPins", "FparserModel.Generated.IoStmtTables"]
+TIE_MODULES = ["FparserModel.Norm", "FparserModel.Combi", "FparserModel.Generated.Combi", "FparserModel.Decl", "FparserModel.Generated.DeclTables", "FparserModel.Proofs.DeclGenerated", "FparserModel.IoStmt", "FparserModel.IoStmtPins", "FparserModel.Generated.IoStmtTables", "FparserModel.Rest", "FparserModel.RestPins", "FparserModel.Generated.RestTables"]
 
 
 def run_case(case):
@@ -68,6 +68,7 @@ def cases(tier, seed):
 
 
 def run(tier, rep, st):
+    util.sub_cosim(rep, tier, "cosim_rest", "Fp.Rest", 60, 600)
     util.sub_cosim(rep, tier, "cosim_iostmt", "Fp.IoStmt", 50, 600)
     util.sub_cosim(rep, tier, "cosim_decl", "Fp.Decl", 150, 1500)
     util.sub_cosim(rep, tier, "cosim_combi", "Fp.Combi", 40, 300, extra=["--max-seconds", "45" if tier != "thorough" else "600", "--classes-per-base", "6" if tier != "thorough" else "1000"])
